@@ -177,3 +177,34 @@ pub fn decliner_variants(r: &mut Rng, events: &mut Vec<Event>) {
     head.extend(events.drain(..));
     *events = head;
 }
+
+/// A caller-supplied rule whose callback ALWAYS unwinds (the caller catches the unwind and keeps using the
+/// calculator and the session), in a sixth of the runs of the model-judged checks: the library-level analogue
+/// of a crash at an arbitrary point of an evaluation. The evaluation that hits it is lost (nothing to judge);
+/// everything afterwards must follow the models as if it had never happened.
+pub fn unwind_variants(r: &mut Rng, events: &mut Vec<Event>) {
+    if !r.chance(1, 6) || events.is_empty() { return; }
+    let t0 = events[0].clock.base();
+    let mut head: Vec<Event> = Vec::new();
+    for (k, lang) in ["en", "tr"].iter().enumerate() {
+        head.push(Event { actor: ADMIN, op: Op::Admin(AdminOp::AddRule { lang: lang.to_string(), rule: RuleSpec { id: 990 + k as u32, name: "boomrule".into(), patterns: vec!["boom {NUMBER:n}".into()], result: ResultSpec::Number(0.0), decline_num: 0, decline_den: 0, unwind_den: 1 } }), clock: ClockScript::Frozen { t: t0 } });
+    }
+    for ev in events.iter_mut() {
+        if !ev.clock.is_frozen() || !r.chance(1, 6) { continue; }
+        if let Op::Execute { text, .. } | Op::SessionText { text } = &mut ev.op {
+            if text.lines.is_empty() { continue; }
+            let at = r.usize(text.lines.len());
+            if r.chance(1, 2) {
+                // on a line of its own, somewhere in the text
+                text.lines.insert(at, Line::Raw(format!("boom {}", r.below(30))));
+                text.crlf.insert(at.min(text.crlf.len()), false);
+            } else {
+                // at the end of an existing line (whatever that line had rewritten before the callback ran)
+                let base = match &text.lines[at] { Line::Raw(s) => s.clone(), Line::Sem(st) => crate::lang::render_stmt(st, &crate::lang::Fmt::default()) };
+                text.lines[at] = Line::Raw(format!("{} boom {}", base, r.below(30)));
+            }
+        }
+    }
+    head.extend(events.drain(..));
+    *events = head;
+}
